@@ -135,7 +135,7 @@ type c09Obs struct {
 // cases the same worker had run before it are replayed: when the fault shows again it is kept
 // with how=sequence and a minimised prefix; when not, it is recorded as unreproduced (evidence
 // only: a verdict must be repeatable).
-func (r *c09Run) explore(units [][]c09Case, progress func(i int, res []c09Result), known func(u, k int, rs c09Result, kind string) bool) [][]c09Obs {
+func (r *c09Run) explore(units [][]c09Case, progress func(i int, res []c09Result), known func(u, k int, rs c09Result, kind string) string) [][]c09Obs {
 	verbose := os.Getenv("C09_VERBOSE") != ""
 	t0 := time.Now()
 	res := r.eng.RunUnits(units, progress)
@@ -159,10 +159,12 @@ func (r *c09Run) explore(units [][]c09Case, progress func(i int, res []c09Result
 				// quick tier: a first-pass fault whose signature is a listed finding is taken as that
 				// finding without confirmation (confirmation exists to keep load and interpreter
 				// state from producing a verdict; a listed signature produces none)
-				if known != nil && !r.c.Thorough() && rs.Status != "S" && known(u, k, rs, kind) {
-					obs[u][k].Kind, obs[u][k].How = kind, "isolated"
-					accepted++
-					continue
+				if known != nil && !r.c.Thorough() && rs.Status != "S" {
+					if how := known(u, k, rs, kind); how != "" {
+						obs[u][k].Kind, obs[u][k].How = kind, how
+						accepted++
+						continue
+					}
 				}
 				faults = append(faults, ref{u, k})
 			}
@@ -339,15 +341,43 @@ type c09Run struct {
 	// first case text and observation per reported signature (findings candidate file)
 	firstCase map[string][2]string
 	sigOrder  []string
+	// evaluations / non-trivial cases (table cases are distinct by construction; seeded duplicates
+	// are possible and counted — a dedup map over millions of case texts is not worth its memory)
+	evals, nontrivial int
+	samples           map[string]int
+}
+
+// sample: true for the first n calls per family (the evidence keeps a dozen samples in all).
+func (r *c09Run) sample(family string, n int) bool {
+	if r.samples == nil {
+		r.samples = map[string]int{}
+	}
+	r.samples[family]++
+	return r.samples[family] <= n
+}
+
+func (r *c09Run) countCase(nontrivial bool) {
+	r.evals++
+	if nontrivial {
+		r.nontrivial++
+	}
+	// the evidence counts distinct non-trivial cases by key: a compact serial number per case
+	var key [5]byte
+	n := r.evals
+	for i := range key {
+		key[i] = byte(n)
+		n >>= 8
+	}
+	r.c.Ev.Case(string(key[:]), nontrivial)
 }
 
 func runC09(c *lib.Ctx) {
 	r := &c09Run{c: c, eng: c09NewEngine(c)}
+	defer os.RemoveAll(c09JailBase(c.Root))
 	if c.Replay != "" {
 		r.replay()
 		return
 	}
-	defer os.RemoveAll(filepath.Join(c.Root, ".work", "c09-jail"))
 	var denied []string
 	r.fns, denied = c09Functions()
 	c.Ev.Coverage["deny_list"] = denied
@@ -372,6 +402,7 @@ func runC09(c *lib.Ctx) {
 		r.sweepFormat()
 	}
 	r.writeCandidates()
+	c.Ev.Coverage["nontrivial_counted"] = r.nontrivial
 	c.Ev.Coverage["unreproduced_faults"] = r.unrepro
 	c.Ev.Coverage["worker_starts"] = r.eng.starts.Load()
 	c.Ev.Coverage["worker_kills"] = r.eng.kills.Load()
@@ -411,8 +442,8 @@ func (r *c09Run) sweepBuiltins() {
 		if os.Getenv("C09_VERBOSE") == "2" {
 			fmt.Fprintf(os.Stderr, "unit %d/%d %s %.1fs\n", done, len(units), r.fns[i].Key(), time.Since(t0).Seconds())
 		}
-	}, func(u, k int, rs c09Result, kind string) bool {
-		return c.Findings.Match("C09", cells[u][k].Sig(kind, rs.Stage)) != nil
+	}, func(u, k int, rs c09Result, kind string) string {
+		return r.knownHow(cells[u][k].Sig(kind, rs.Stage))
 	})
 	c.Ev.Coverage["pair_sweep_wall_s"] = time.Since(t0).Seconds()
 	total, faults := 0, 0
@@ -425,8 +456,11 @@ func (r *c09Run) sweepBuiltins() {
 			rs := ob.Res
 			total++
 			unitUs += rs.Micros
-			c.Ev.Case(units[ui][k].Text, !c09IsArity(rs))
+			r.countCase(!c09IsArity(rs))
 			c.Ev.Hist("outcome", c09OutcomeBucket(rs))
+			if rs.Text != "" && rs.Status != "C" && r.sample("builtin", 4) {
+				c.Ev.Sample(map[string]string{"call": units[ui][k].Text, "outcome": rs.Summary()})
+			}
 			if rs.Micros > 100000 {
 				slowCases = append(slowCases, fmt.Sprintf("%8.3fs\t%s\t%s", float64(rs.Micros)/1e6, units[ui][k].Text, c09OutcomeBucket(rs)))
 			}
@@ -529,8 +563,8 @@ func (r *c09Run) sweepTuples() {
 		table = append(table, tb)
 	}
 	t0 := time.Now()
-	obs := r.explore(units, nil, func(u, k int, _ c09Result, kind string) bool {
-		return c.Findings.Match("C09", fmt.Sprintf("fn=%s argc=3+ kind=%s", cells[u][k].fn.Key(), kind)) != nil
+	obs := r.explore(units, nil, func(u, k int, _ c09Result, kind string) string {
+		return r.knownHow(fmt.Sprintf("fn=%s argc=3+ kind=%s", cells[u][k].fn.Key(), kind))
 	})
 	c.Ev.Coverage["tuple_wall_s"] = time.Since(t0).Seconds()
 	c.Ev.Coverage["tuple_table_cases"] = nTable
@@ -539,9 +573,12 @@ func (r *c09Run) sweepTuples() {
 	for u := range obs {
 		for k, ob := range obs[u] {
 			cl := cells[u][k]
-			c.Ev.Case(units[u][k].Text, !c09IsArity(ob.Res))
+			r.countCase(!c09IsArity(ob.Res))
 			c.Ev.Hist("tuple_outcome", c09OutcomeBucket(ob.Res))
 			c.Ev.Hist("tuple_argc", fmt.Sprint(len(cl.idx)))
+			if ob.Res.Text != "" && len(cl.idx) > 3 && r.sample("tuple", 2) {
+				c.Ev.Sample(map[string]string{"call": units[u][k].Text, "outcome": ob.Res.Summary()})
+			}
 			if ob.Kind == "" {
 				continue
 			}
@@ -557,10 +594,20 @@ func (r *c09Run) sweepTuples() {
 	_ = os.WriteFile(filepath.Join(c.OutDir, "tuple-faults.tsv"), []byte(strings.Join(dump, "\n")+"\n"), 0o644)
 }
 
-// c09IsArity: the outcome is an argument count error (statistics only).
-func c09IsArity(r c09Result) bool {
-	return r.Status == "C" && (strings.HasPrefix(r.Text, "Too few arguments") || strings.HasPrefix(r.Text, "Too many arguments"))
+// knownHow: "" when the signature of a first-pass fault is not listed; else how it is listed
+// (alone, or only in the sequence of its unit).
+func (r *c09Run) knownHow(sig string) string {
+	if r.c.Findings.Match("C09", sig) != nil {
+		return "isolated"
+	}
+	if r.c.Findings.Match("C09", sig+" how=sequence") != nil {
+		return "sequence"
+	}
+	return ""
 }
+
+// c09IsArity: the outcome is an argument count error (statistics only).
+func c09IsArity(r c09Result) bool { return r.Arity }
 
 // report records a fault: listed signatures of sweep cells are known findings, everything else
 // is a violation. The first case seen per signature is kept for the findings candidate file.
@@ -650,8 +697,11 @@ func (r *c09Run) sweepReader() {
 	}
 	units := c09Chunk(cases, 2000)
 	t0 := time.Now()
-	obs := r.explore(units, nil, func(u, k int, rs c09Result, kind string) bool {
-		return u*2000+k < nTable && c.Findings.Match("C09", c09ReaderSig(units[u][k].Text, kind, rs.Stage)) != nil
+	obs := r.explore(units, nil, func(u, k int, rs c09Result, kind string) string {
+		if u*2000+k >= nTable {
+			return ""
+		}
+		return r.knownHow(c09ReaderSig(units[u][k].Text, kind, rs.Stage))
 	})
 	c.Ev.Coverage["reader_wall_s"] = time.Since(t0).Seconds()
 	c.Ev.Coverage["reader_table_cases"] = nTable
@@ -663,9 +713,9 @@ func (r *c09Run) sweepReader() {
 			in := units[u][k].Text
 			sweep := i < nTable
 			i++
-			c.Ev.Case("R:"+in, len(in) >= 2)
+			r.countCase(len(in) >= 2)
 			c.Ev.Hist("reader_outcome", c09OutcomeBucket(ob.Res))
-			if i%(len(cases)/6+1) == 0 {
+			if ob.Res.Text != "" && i%7 == 0 && r.sample("reader", 3) {
 				c.Ev.Sample(map[string]string{"reader_input": fmt.Sprintf("%q", in), "outcome": ob.Res.Summary()})
 			}
 			if ob.Kind == "" {
@@ -775,9 +825,11 @@ func (r *c09Run) sweepFormat() {
 	// format output is small unless a count is huge: a low memory cap ends those cases quickly
 	cap0 := r.eng.RSSCap
 	r.eng.RSSCap = 512 << 20
-	obs := r.explore(units, nil, func(u, k int, _ c09Result, kind string) bool {
-		fc := all[offset[u]+k]
-		return fc.table && c.Findings.Match("C09", fc.sig(kind)) != nil
+	obs := r.explore(units, nil, func(u, k int, _ c09Result, kind string) string {
+		if fc := all[offset[u]+k]; fc.table {
+			return r.knownHow(fc.sig(kind))
+		}
+		return ""
 	})
 	r.eng.RSSCap = cap0
 	c.Ev.Coverage["format_wall_s"] = time.Since(t0).Seconds()
@@ -789,9 +841,9 @@ func (r *c09Run) sweepFormat() {
 		for k, ob := range obs[u] {
 			i++
 			fc := all[i]
-			c.Ev.Case(units[u][k].Text, len(fc.args) > 0 || strings.Count(fc.ctl, "~") > 1)
+			r.countCase(len(fc.args) > 0 || strings.Count(fc.ctl, "~") > 1)
 			c.Ev.Hist("format_outcome", c09OutcomeBucket(ob.Res))
-			if i%(len(all)/6+1) == 0 {
+			if ob.Res.Text != "" && i%5 == 0 && r.sample("format", 3) {
 				c.Ev.Sample(map[string]string{"format_case": units[u][k].Text, "outcome": ob.Res.Summary()})
 			}
 			if ob.Kind == "" {
@@ -819,20 +871,27 @@ func (r *c09Run) sweepFormat() {
 	if c.ModelBin != "" {
 		// the directive scanner model: an unknown byte after the first ~ (past modifiers and
 		// parameters) must make format raise
+		// the model's answer depends on the control string only: one request per distinct string
 		var reqs []string
-		var refs [][2]int
+		reqOf := map[string]int{}
+		var refs [][3]int // unit, case, request
 		i := -1
 		for u := range obs {
 			for k := range obs[u] {
 				i++
-				reqs = append(reqs, "tot format "+lib.Hex(all[i].ctl))
-				refs = append(refs, [2]int{u, k})
+				q, ok := reqOf[all[i].ctl]
+				if !ok {
+					q = len(reqs)
+					reqOf[all[i].ctl] = q
+					reqs = append(reqs, "tot format "+lib.Hex(all[i].ctl))
+				}
+				refs = append(refs, [3]int{u, k, q})
 			}
 		}
 		replies := c.Model(reqs)
 		raise, agree := 0, 0
-		for j, rep := range replies {
-			u, k := refs[j][0], refs[j][1]
+		for _, ref := range refs {
+			u, k, rep := ref[0], ref[1], replies[ref[2]]
 			switch {
 			case strings.HasPrefix(rep, "err"):
 				c.Report("format-model aspect=model-fault", false, map[string]any{
@@ -853,6 +912,7 @@ func (r *c09Run) sweepFormat() {
 			}
 		}
 		c.Ev.Coverage["format_model_requests"] = len(reqs)
+		c.Ev.Coverage["format_model_cases"] = len(refs)
 		c.Ev.Coverage["format_model_raise"] = raise
 		c.Ev.Coverage["format_model_agree"] = agree
 		r.groupCorrespondence()
@@ -988,7 +1048,9 @@ func (r *c09Run) groupCorrespondence() {
 		cases = append(cases, c09Case{"E", "(format nil " + c09LispString(ctl) + " " + num + ")"})
 		reqs = append(reqs, fmt.Sprintf("tot group %s %d %s", shown, ci, lib.Hex(comma)))
 	}
-	res := r.eng.RunUnits(c09Chunk(cases, 1000), nil)
+	eng := r.eng.Confirming()
+	eng.Deadline, eng.KeepText = r.eng.Deadline, true
+	res := eng.RunUnits(c09Chunk(cases, 1000), nil)
 	replies := c.Model(reqs)
 	i, agree := 0, 0
 	for _, ur := range res {
